@@ -51,6 +51,46 @@ CLAIMED = {
    note="Trusted: as C11; 'ended' = 'termination reaped' (a signal to an unreaped zombie cannot be excluded by a user-space library); the child side of fork is exercised only by the smoke run",
    technique="Coq proof (all child-behaviour oracles) + trace acceptance with virtual processes/time + real fork/exec smoke test",
    ref="4 C19, 9.2"),
+ "C02": dict(
+   text='Proved so far (Coq, all well-formed scenarios = all programs, kernel behaviours, poll methods, fault sets): handlers are always called through the pointer currently set (clause 301); the epoll/poll event masks and the wanted-band computation of the model are proved equal to the C functions as re-translated from the current source on every run (Gen/Leaf.v + Base/LeafLink.v). The full statement mon_C02 (kernel interest = bands with handlers at every wait; no sleeping on a wanted ready descriptor; reported => dispatched; clauses 201-204 and the no-stale-kernel-entry rule 1104) is stated in Properties_C02.v.draft and is being proved (Core/CorePhase2Fd); until then those clauses are decided on every run by the extracted monitor on model and implementation traces. Tie (every run): trace EQUALITY of the extracted core model and the real library (ivsim on the virtual kernel) on generated scenarios x 4 poll methods x faults under ASan/UBSan, and the extracted Coq monitors (Core/Monitors.v, Core/GuardMon.v) on the IMPLEMENTATION traces for ALL clauses of the property (proved or not).',
+   note='Trusted: Coq kernel, extraction + OCaml scenario parser/trace printer/trace parser, the hand transcription of the C text into Core/*.v (tied by trace equality on every run), vk.c/Kernel.v virtual kernel (probed against Linux by harness/vk_smoke.c), ivsim.c, ASan/UBSan; the leaf translator gen/c2gallina.py + clang AST where Gen/Leaf.v is used',
+   technique='Coq proof on the executable core model (tracker/state simulation) + regenerated leaf functions + extracted-model trace-equality correspondence + extracted monitors on implementation traces',
+   ref='4 C02, 9.2'),
+ "C03": dict(
+   text="Proved so far: every descriptor callback is for a registered descriptor (101), through the handler currently set for that band (301), with the descriptor's current cookie (302), for all well-formed scenarios. Still monitor-only (proof in progress, Core/CorePhase2Fd): the band's condition held at the preceding kernel poll (303), at most once per iteration (304). Tie (every run): trace EQUALITY of the extracted core model and the real library (ivsim on the virtual kernel) on generated scenarios x 4 poll methods x faults under ASan/UBSan, and the extracted Coq monitors (Core/Monitors.v, Core/GuardMon.v) on the IMPLEMENTATION traces for ALL clauses of the property (proved or not).",
+   note='Trusted: Coq kernel, extraction + OCaml scenario parser/trace printer/trace parser, the hand transcription of the C text into Core/*.v (tied by trace equality on every run), vk.c/Kernel.v virtual kernel (probed against Linux by harness/vk_smoke.c), ivsim.c, ASan/UBSan; the leaf translator gen/c2gallina.py + clang AST where Gen/Leaf.v is used',
+   technique='Coq proof on the executable core model (tracker/state simulation) + regenerated leaf functions + extracted-model trace-equality correspondence + extracted monitors on implementation traces',
+   ref='4 C03, 9.2'),
+ "C04": dict(
+   text='Proved so far: a timer fires at most once per registration (102); the loop clock shown to handlers never runs ahead of the true clock (406) and never backwards across waits (407); timespec_gt / to_relative / to_msec / timespec_cmp of the model equal the C functions re-translated from the current source on every run, and to_msec never under-estimates and rounds up by less than 1 ms. Still monitor-only (proof in progress, Core/CorePhase2Time): never early (401), no timer due while sleeping (403), oversleep bound (404), never blocked for ever with a timer registered (405). Tie (every run): trace EQUALITY of the extracted core model and the real library (ivsim on the virtual kernel) on generated scenarios x 4 poll methods x faults under ASan/UBSan, and the extracted Coq monitors (Core/Monitors.v, Core/GuardMon.v) on the IMPLEMENTATION traces for ALL clauses of the property (proved or not).',
+   note='Trusted: Coq kernel, extraction + OCaml scenario parser/trace printer/trace parser, the hand transcription of the C text into Core/*.v (tied by trace equality on every run), vk.c/Kernel.v virtual kernel (probed against Linux by harness/vk_smoke.c), ivsim.c, ASan/UBSan; the leaf translator gen/c2gallina.py + clang AST where Gen/Leaf.v is used',
+   technique='Coq proof on the executable core model (tracker/state simulation) + regenerated leaf functions + extracted-model trace-equality correspondence + extracted monitors on implementation traces',
+   ref='4 C04, 9.2'),
+ "C06": dict(
+   text='Proved so far: a task callback is only for a registered task and unregisters it (103: at most once per registration). Still monitor-only (proof in progress): no sleeping/hanging with a task registered (602/604), deferred re-run (603), scripted re-registration from the handler executed (1101/1102). Tie (every run): trace EQUALITY of the extracted core model and the real library (ivsim on the virtual kernel) on generated scenarios x 4 poll methods x faults under ASan/UBSan, and the extracted Coq monitors (Core/Monitors.v, Core/GuardMon.v) on the IMPLEMENTATION traces for ALL clauses of the property (proved or not).',
+   note='Trusted: Coq kernel, extraction + OCaml scenario parser/trace printer/trace parser, the hand transcription of the C text into Core/*.v (tied by trace equality on every run), vk.c/Kernel.v virtual kernel (probed against Linux by harness/vk_smoke.c), ivsim.c, ASan/UBSan; the leaf translator gen/c2gallina.py + clang AST where Gen/Leaf.v is used',
+   technique='Coq proof on the executable core model (tracker/state simulation) + regenerated leaf functions + extracted-model trace-equality correspondence + extracted monitors on implementation traces',
+   ref='4 C06, 9.2'),
+ "C07": dict(
+   text='Proved so far: callbacks only inside iv_main (709), quit flag consistent at return (703), no wait after iv_quit (704). Still monitor-only (proofs in progress, Core/CorePhase2Acct: 701/702/706 already done there): returns only when quit or nothing registered, accounting balance, progress (707), no sleeping with an undelivered self-post (708/710), no busy polling (711/1103). Tie (every run): trace EQUALITY of the extracted core model and the real library (ivsim on the virtual kernel) on generated scenarios x 4 poll methods x faults under ASan/UBSan, and the extracted Coq monitors (Core/Monitors.v, Core/GuardMon.v) on the IMPLEMENTATION traces for ALL clauses of the property (proved or not).',
+   note='Trusted: Coq kernel, extraction + OCaml scenario parser/trace printer/trace parser, the hand transcription of the C text into Core/*.v (tied by trace equality on every run), vk.c/Kernel.v virtual kernel (probed against Linux by harness/vk_smoke.c), ivsim.c, ASan/UBSan; the leaf translator gen/c2gallina.py + clang AST where Gen/Leaf.v is used',
+   technique='Coq proof on the executable core model (tracker/state simulation) + regenerated leaf functions + extracted-model trace-equality correspondence + extracted monitors on implementation traces',
+   ref='4 C07, 9.2'),
+ "C09": dict(
+   text="Owner-thread view. Proved so far: a raw-event callback is only for a registered object (105). Still monitor-only (proof in progress): the loop never sleeps or hangs while a post made after the last handler entry is undelivered (901/902), on eventfd2, old eventfd and the pipe fall-back, including bursts beyond 1024 and 65536 posts. Cross-thread delivery of the raw kick is covered by C08's acceptor model. Tie (every run): trace EQUALITY of the extracted core model and the real library (ivsim on the virtual kernel) on generated scenarios x 4 poll methods x faults under ASan/UBSan, and the extracted Coq monitors (Core/Monitors.v, Core/GuardMon.v) on the IMPLEMENTATION traces for ALL clauses of the property (proved or not).",
+   note='Trusted: Coq kernel, extraction + OCaml scenario parser/trace printer/trace parser, the hand transcription of the C text into Core/*.v (tied by trace equality on every run), vk.c/Kernel.v virtual kernel (probed against Linux by harness/vk_smoke.c), ivsim.c, ASan/UBSan; the leaf translator gen/c2gallina.py + clang AST where Gen/Leaf.v is used',
+   technique='Coq proof on the executable core model (tracker/state simulation) + regenerated leaf functions + extracted-model trace-equality correspondence + extracted monitors on implementation traces',
+   ref='4 C09, 9.2'),
+ "C15": dict(
+   text='wf_scenario quantifies over the poll method and the fault set, so every proved clause of C01-C09/C18 holds for every method and every fault sequence (C15_all_methods_*); across an interrupted wait time does not run backwards (1502). Implementation side: the same programs on 4 methods with EINTR at the k-th wait / epoll_ctl and each optional system call missing, groups of order-independent programs whose callback sequences must be identical on all four methods, and a probe program that compares the virtual kernel with the real Linux kernel (harness/vk_smoke.c). Tie (every run): trace EQUALITY of the extracted core model and the real library (ivsim on the virtual kernel) on generated scenarios x 4 poll methods x faults under ASan/UBSan, and the extracted Coq monitors (Core/Monitors.v, Core/GuardMon.v) on the IMPLEMENTATION traces for ALL clauses of the property (proved or not).',
+   note='Trusted: Coq kernel, extraction + OCaml scenario parser/trace printer/trace parser, the hand transcription of the C text into Core/*.v (tied by trace equality on every run), vk.c/Kernel.v virtual kernel (probed against Linux by harness/vk_smoke.c), ivsim.c, ASan/UBSan; the leaf translator gen/c2gallina.py + clang AST where Gen/Leaf.v is used',
+   technique='Coq proof on the executable core model (tracker/state simulation) + regenerated leaf functions + extracted-model trace-equality correspondence + extracted monitors on implementation traces',
+   ref='4 C15, 9.2'),
+ "C18": dict(
+   text='Proved so far: the model only ever calls into objects that are registered (101-105). Still monitor/sanitizer-only (proofs in progress: core_no_crash in Core/CoreInv, 1802/706 in Core/CorePhase2Acct): no out-of-bounds / NULL-slot access and no abort, descriptor balance after iv_deinit, accounting balance after tear-down; byte-level memory safety and leaks are observed by ASan/UBSan/LSan on individually allocated, poisoned, early-freed objects, not proved. Tie (every run): trace EQUALITY of the extracted core model and the real library (ivsim on the virtual kernel) on generated scenarios x 4 poll methods x faults under ASan/UBSan, and the extracted Coq monitors (Core/Monitors.v, Core/GuardMon.v) on the IMPLEMENTATION traces for ALL clauses of the property (proved or not).',
+   note='Trusted: Coq kernel, extraction + OCaml scenario parser/trace printer/trace parser, the hand transcription of the C text into Core/*.v (tied by trace equality on every run), vk.c/Kernel.v virtual kernel (probed against Linux by harness/vk_smoke.c), ivsim.c, ASan/UBSan; the leaf translator gen/c2gallina.py + clang AST where Gen/Leaf.v is used',
+   technique='Coq proof on the executable core model (tracker/state simulation) + regenerated leaf functions + extracted-model trace-equality correspondence + extracted monitors on implementation traces',
+   ref='4 C18, 9.2'),
 }
 NA_REASON = "not claimed yet: the model/theorem/tie for this property is still being built (see DESIGN.md section 7 order of work)"
 
